@@ -539,7 +539,7 @@ class HandlerGen:
     yields a timeout (None or a number), finishes (StopAsyncIteration) or fails with any BaseException.
     Ghost: ghost.delivered counts the actions handed to it (asend/athrow), self.closed counts the aclose() calls that actually
     closed a live generator (GeneratorExit thrown into its body), ghost.live_gens counts the generators created and not
-    yet finished."""
+    yet finished, ghost.last_timeout is the timeout most recently yielded by a handler generator."""
 
     def __init__(self):
         self.finished = False
@@ -560,7 +560,9 @@ class HandlerGen:
         if k == 1:
             self._finish()
             raise_any(BaseException, StopAsyncIteration, GeneratorExit)
-        return nondet("opt[xreal]")
+        t = nondet("opt[xreal]")
+        ghost.last_timeout = t   # the timeout this generator asks for its next request
+        return t
 
     async def __anext__(self):
         return self._resume()
